@@ -230,7 +230,45 @@ static void body_dicts(void) {
     if (vx_want_sample()) vx_sample("rec#%d dict %zu bytes level %d: static CDict %zu bytes %s", idx, r->dlen, lvl, ce, cd ? "ok" : "refused");
 }
 
+/* a static context of exactly the estimated size keeps accepting every job the estimate covers, however long it has been in use:
+ * 300 jobs at a level l <= L (small, so that most of the block stays unused), then one large job at level L; guard zones around the block */
+static void body_wear(void) {
+    static const int PAIRS[][2] = {{1, 1}, {3, 1}, {3, 3}, {6, 1}, {12, 1}, {12, 3}, {16, 2}, {19, 5}};
+    int pi = vx_choose(8), kind = vx_choose(3), small = vx_choose(3); int L = PAIRS[pi][0], l = PAIRS[pi][1];
+    static const size_t SMALL[] = {100, 3000, 40000}; size_t sn = SMALL[small];
+    vx_label("wear kind%d L=%d l=%d small=%zu", kind, L, l, sn);
+    size_t est = kind == 0 ? ZSTD_estimateCCtxSize(L) : kind == 1 ? ZSTD_estimateCStreamSize(L) : ZSTD_estimateDStreamSize((size_t)1 << 17);
+    u8* blk = (u8*)malloc(est + 128); memset(blk, 0xA7, est + 128); void* ws = blk + 64;
+    size_t big = 200000, r = 0; int runs = 300;
+    if (kind < 2) {
+        ZSTD_CCtx* c = kind == 0 ? ZSTD_initStaticCCtx(ws, est) : ZSTD_initStaticCStream(ws, est);
+        if (!c) { vx_fail("static context of the estimated size (%zu bytes) cannot be created", est); goto out; }
+        for (int i = 0; i <= runs && !vx_failed; i++) {
+            int last = i == runs; size_t n = last ? big : sn; int lv = last ? L : l;
+            if (kind == 0) r = ZSTD_compressCCtx(c, g_dst, 1u << 20, g_src, n, lv);
+            else { ZSTD_CCtx_reset(c, ZSTD_reset_session_only); ZSTD_CCtx_setParameter(c, ZSTD_c_compressionLevel, lv); ZSTD_inBuffer in = { g_src, n, 0 }; ZSTD_outBuffer out = { g_dst, 1u << 20, 0 }; do { r = ZSTD_compressStream2(c, &out, &in, ZSTD_e_end); } while (r && !ZSTD_isError(r)); if (!ZSTD_isError(r)) r = out.pos; }
+            if (ZSTD_isError(r)) { vx_fail("job %d on a static context sized for level %d (level %d, %zu bytes) is refused: %s", i + 1, L, lv, n, ZSTD_getErrorName(r)); break; }
+            if (last || i % 50 == 0) { size_t d = ZSTD_decompress(g_out, SRCMAX, g_dst, r); if (ZSTD_isError(d) || d != n || memcmp(g_out, g_src, n)) { vx_fail("job %d on the static context does not round trip", i + 1); break; } }
+        }
+    } else {
+        ZSTD_DCtx* d = ZSTD_initStaticDStream(ws, est);
+        if (!d) { vx_fail("static DStream of the estimated size cannot be created"); goto out; }
+        size_t c1 = ZSTD_compress(g_dst, 1u << 19, g_src, sn, 1); ZSTD_CCtx* cc = ZSTD_createCCtx(); ZSTD_CCtx_setParameter(cc, ZSTD_c_windowLog, 17); ZSTD_CCtx_setParameter(cc, ZSTD_c_compressionLevel, 3); size_t c2 = ZSTD_compress2(cc, g_dst + (1u << 19), 1u << 19, g_src, big); ZSTD_freeCCtx(cc);
+        for (int i = 0; i <= runs && !vx_failed; i++) {
+            int last = i == runs; const u8* f = last ? g_dst + (1u << 19) : g_dst; size_t fl = last ? c2 : c1, n = last ? big : sn;
+            ZSTD_DCtx_reset(d, ZSTD_reset_session_only); ZSTD_inBuffer in = { f, fl, 0 }; ZSTD_outBuffer out = { g_out, SRCMAX, 0 }; r = 1;
+            while (r && !ZSTD_isError(r) && in.pos < in.size) { ZSTD_inBuffer part = { f, in.pos + 1000 > fl ? fl : in.pos + 1000, in.pos }; r = ZSTD_decompressStream(d, &out, &part); in.pos = part.pos; }
+            if (ZSTD_isError(r) || out.pos != n || memcmp(g_out, g_src, n)) { vx_fail("decoding job %d on a static DStream sized for a 128 KiB window fails: %s", i + 1, ZSTD_isError(r) ? ZSTD_getErrorName(r) : "content"); break; }
+        }
+    }
+    for (size_t g = 0; g < 64 && !vx_failed; g++) if (blk[g] != 0xA7 || blk[64 + est + g] != 0xA7) vx_fail("bytes outside the caller-provided block were written");
+    vx_obs_u64((uint64_t)pi * 16 + (uint64_t)kind * 4 + (uint64_t)small); vx_nontrivial();
+out:
+    free(blk);
+}
+
 static void body(void) {
+    if (!strcmp(g_mode, "wear")) { body_wear(); return; }
     if (!strcmp(g_mode, "levels")) body_levels(); else if (!strcmp(g_mode, "cparams")) body_cparams(); else if (!strcmp(g_mode, "dstream")) body_dstream();
     else if (!strcmp(g_mode, "sizeof")) body_sizeof(); else body_dicts();
 }
